@@ -99,11 +99,34 @@ func (w *vrWatcher) Watch(ctx context.Context, key string, opts ...clientv3.OpOp
 	return s.out
 }
 
+// vrKV holds the router's prefix read (loadAll) until the schedule's Load step, so that the order of a reload and the
+// admin client's changes never depends on the router's one-second sleep.
+type vrKV struct {
+	clientv3.KV
+	arrive  chan struct{}
+	release chan struct{}
+	off     chan struct{} // closed at the end of the schedule: reads pass
+}
+
+func (k *vrKV) Get(ctx context.Context, key string, opts ...clientv3.OpOption) (*clientv3.GetResponse, error) {
+	select {
+	case <-k.off:
+	default:
+		k.arrive <- struct{}{}
+		select {
+		case <-k.release:
+		case <-k.off:
+		}
+	}
+	return k.KV.Get(ctx, key, opts...)
+}
+
 type vrRun struct {
 	t        *testing.T
 	admin    *clientv3.Client
 	cli      *clientv3.Client
 	w        *vrWatcher
+	kv       *vrKV
 	kind     string
 	pr       *PartitionRouter
 	gr       *GroupRouter
@@ -256,25 +279,41 @@ func (r *vrRun) step(i int, st vlStep) {
 		}
 	case "Load":
 		line["q"] = st.Q
+		built := make(chan error, 1)
 		switch r.state {
 		case "init":
-			var err error
-			lg := slog.New(slog.NewTextHandler(io.Discard, nil))
-			if r.kind == "group" {
-				r.gr, err = NewGroupRouter(context.Background(), r.cli, lg)
-			} else {
-				r.pr, err = NewPartitionRouter(context.Background(), r.cli, lg)
-			}
-			if err != nil {
-				r.t.Fatalf("new router: %v", err)
-			}
-		case "closed": // the router sleeps one second, reloads and comes back to the gate by itself
+			go func() { // the constructor runs loadAll synchronously; its read waits for this step
+				var err error
+				lg := slog.New(slog.NewTextHandler(io.Discard, nil))
+				if r.kind == "group" {
+					r.gr, err = NewGroupRouter(context.Background(), r.cli, lg)
+				} else {
+					r.pr, err = NewPartitionRouter(context.Background(), r.cli, lg)
+				}
+				built <- err
+			}()
+		case "closed": // the router sleeps one second and then asks for the prefix by itself
+			built <- nil
 		default:
 			r.abort(i, st, "router is "+r.state)
 			return
 		}
+		select {
+		case <-r.kv.arrive:
+		case <-time.After(vrLong):
+			r.t.Fatalf("step %d %v: router did not start loadAll", i, st)
+		}
+		r.kv.release <- struct{}{}
 		if !r.waitArrive() {
 			r.t.Fatalf("step %d %v: router did not reach router.beforeWatch", i, st)
+		}
+		select {
+		case err := <-built:
+			if err != nil {
+				r.t.Fatalf("new router: %v", err)
+			}
+		case <-time.After(vrLong):
+			r.t.Fatalf("step %d %v: router constructor did not return", i, st)
 		}
 		r.state, r.skip = "loaded", map[string]bool{}
 	case "WatchStart":
@@ -363,6 +402,7 @@ func (r *vrRun) stop() {
 	r.mu.Lock()
 	r.stopping = true
 	r.mu.Unlock()
+	close(r.kv.off)
 	if r.pr != nil {
 		r.pr.Stop()
 	}
@@ -407,7 +447,9 @@ func TestVerifRouterReplay(t *testing.T) {
 		}
 		w := &vrWatcher{Watcher: cli.Watcher, established: make(chan *vrStream, 4)}
 		cli.Watcher = w
-		r := &vrRun{t: t, admin: admin, cli: cli, w: w, kind: s.Kind, state: "init", skip: map[string]bool{},
+		kv := &vrKV{KV: cli.KV, arrive: make(chan struct{}, 4), release: make(chan struct{}), off: make(chan struct{})}
+		cli.KV = kv
+		r := &vrRun{t: t, admin: admin, cli: cli, w: w, kv: kv, kind: s.Kind, state: "init", skip: map[string]bool{},
 			arrive: make(chan string, 4), release: make(chan struct{}), emit: emit, keys: []string{"r1", "r2"}}
 		ctx, cancel := context.WithTimeout(context.Background(), 20*time.Second)
 		dresp, err := admin.Delete(ctx, r.prefix(), clientv3.WithPrefix())
